@@ -12,9 +12,10 @@ PRINTF_LIKE = {"printf", "fprintf", "sprintf", "snprintf", "puts", "fputs", "ffl
 
 
 from .heap import HeapMixin
+from .stream import StreamMixin, View
 
 
-class Exec(HeapMixin, Engine):
+class Exec(HeapMixin, StreamMixin, Engine):
     # ================================================================== expressions
     def lvalue(self, st, n):
         """Evaluate an lvalue expression to a Ptr."""
@@ -40,6 +41,10 @@ class Exec(HeapMixin, Engine):
                     self.check_deref(st, p, n)
                     p = Ptr(p.obj, p.path, False)
                 return Ptr(p.obj, p.path + (n["name"],), False)
+            if base.get("valueCategory") == "prvalue" or base.get("kind") == "CallExpr":
+                sv = self.rvalue(st, base)
+                c = st.mem.add(Cell(self.node_type(base), sv, "tmp"))
+                return Ptr(c.id, (n["name"],), False)
             p = self.lvalue(st, base)
             return Ptr(p.obj, p.path + (n["name"],), False)
         if k == "ArraySubscriptExpr":
@@ -75,6 +80,9 @@ class Exec(HeapMixin, Engine):
         if base.obj is None:
             raise Unsupported("arithmetic on NULL")
         idx = as_int(idx)
+        if base.path and isinstance(base.path[-1], View):
+            vw = base.path[-1]
+            return Ptr(base.obj, base.path[:-1] + (View(vw.ctype, simp(vw.pos + idx * self.sizeof(vw.ctype))),), base.null)
         if base.path and not isinstance(base.path[-1], str):
             last = base.path[-1]
             return Ptr(base.obj, base.path[:-1] + (simp(as_int(last) + idx),), base.null)
@@ -233,6 +241,9 @@ class Exec(HeapMixin, Engine):
 
     def cast(self, st, v, ck, to, frm, n):
         if ck == "BitCast" and isinstance(v, Ptr) and v.obj is not None and to.kind == "ptr":
+            vv = self.view_cast(st, v, to.to)
+            if vv is not None:
+                return vv
             o = st.mem.objs.get(v.obj)
             if isinstance(o, ArrObj) and o.elem is None:
                 return self.retype_block(st, v, to.to)
@@ -460,7 +471,14 @@ class Exec(HeapMixin, Engine):
             return z3.And(a, b) if op == "&&" else z3.Or(a, b)
         a = self.rvalue(st, L)
         b = self.rvalue(st, R)
-        return self.arith(st, op, a, b, n)
+        r = self.arith(st, op, a, b, n)
+        if op == "-" and getattr(self, "check_unsigned_wrap", False) and is_z3(r) and z3.is_int(r) and self.check_defined:
+            # opt-in (pack sets engine.check_unsigned_wrap): Z-mode is only faithful if an unsigned difference such as
+            # `r->N-1` does not wrap around; make that a definedness obligation instead of a silent assumption
+            t = self.node_type(n)
+            if t.kind == "int" and not t.signed and const_int(r) is None:
+                self.check_then_assume(st, "arith.unsigned_nowrap@%s" % self._where(n), r >= 0, "def", n)
+        return r
 
     def rv_CompoundAssignOperator(self, st, n):
         op = n["opcode"][:-1]
@@ -519,6 +537,10 @@ class Exec(HeapMixin, Engine):
         if isinstance(a, Opaque) and isinstance(b, Opaque) and a.what == b.what:
             return a
         raise Unsupported("ite of %r / %r" % (a, b))
+
+    def rv_OffsetOfExpr(self, st, n):
+        # clang's JSON dump does not carry the member designator; the value is not needed symbolically
+        return self.fresh("offsetof", z3.IntSort())
 
     def rv_VAArgExpr(self, st, n):
         h = st.ghost.get("va_args")
